@@ -38,8 +38,8 @@ var drvLayouts = []drvLayout{
 }
 
 var drvMethods = []string{"average", "sum", "last", "max", "min", "first"}
-var drvXffs = [][2]int64{{0, 1}, {1, 2}, {1, 1}, {1, 3}}
-var drvBases = []int64{0, 1600000000, 2147000000}
+var drvXffs = [][2]int64{{0, 1}, {1, 2}, {1, 1}, {1, 3}, {1, 5}, {3, 5}, {1, 10}, {3, 10}, {2, 3}, {1, 4}}
+var drvBases = []int64{0, 1600000000, 2147000000, 2300000000, 4294000000} // incl. real times beyond 2^31 (the model's times stay small)
 var drvScales = []float64{1, 0.25, 1024}
 
 func lcmUpTo(n int64) int64 {
@@ -100,8 +100,9 @@ func (m Mapping) sparseOf(ring [][]RSlot) [][][]interface{} {
 }
 
 type coreDriver struct {
-	prop  string
-	seed  int64
+	prop    string
+	pending map[string]interface{}
+	seed    int64
 	rnd   *rand.Rand
 	w     *bufio.Writer
 	dir   string
@@ -149,13 +150,43 @@ func (d *coreDriver) oneTrace(id int) error {
 	m := Mapping{B: drvBases[rnd.Intn(len(drvBases))], Scale: drvScales[rnd.Intn(len(drvScales))]}
 	l := lcmAll(lay)
 	m.B -= m.B % l
-	now := maxRet + 1000 + rnd.Int63n(5000)
+	now := maxRet + 2*lay[len(lay)-1].Step + 1000 + rnd.Int63n(5000)
 	path := filepath.Join(d.dir, fmt.Sprintf("t%d.wsp", id))
 	defer os.Remove(path)
 
 	ail := make([]wt.ArchiveInfo, k)
 	for i, a := range lay {
 		ail[i] = wt.NewArchiveInfo(wt.Duration(a.Step), uint32(a.N))
+	}
+	if (d.prop == "C05" || d.prop == "ALL") && rnd.Intn(3) == 0 {
+		// a handle from Create that is dropped before its first Sync (after some writes)
+		p0 := filepath.Join(d.dir, fmt.Sprintf("n%d.wsp", id))
+		ndb, err := wt.Create(p0, append([]wt.ArchiveInfo{}, ail...), methodOf(method), xffFloat(cfg.Xff))
+		if err != nil {
+			return fmt.Errorf("create: %v", err)
+		}
+		for i := 0; i < 1+rnd.Intn(20); i++ {
+			a := rnd.Intn(k)
+			ndb.UpdatePointForArchive(a, wt.Timestamp(m.B+now-rnd.Int63n(lay[a].Step*lay[a].N)), wt.Value(float64(rnd.Intn(50))), wt.Timestamp(m.B+now))
+		}
+		if rnd.Intn(2) == 0 {
+			ndb.FetchFromArchive(0, wt.Timestamp(m.B+now-5), wt.Timestamp(m.B+now), wt.Timestamp(m.B+now))
+		}
+		ndb.Close()
+		buf, _ := ioutil.ReadFile(p0)
+		zero := true
+		for _, b := range buf {
+			if b != 0 {
+				zero = false
+				break
+			}
+		}
+		exp := int64(16 + 12*k)
+		for _, a := range lay {
+			exp += 12 * a.N
+		}
+		os.Remove(p0)
+		d.pending = map[string]interface{}{"ev": "newfile-abandoned", "zero": zero, "len": len(buf), "expected_len": exp}
 	}
 	db, err := wt.Create(path, ail, methodOf(method), xffFloat(cfg.Xff))
 	if err != nil {
@@ -187,6 +218,10 @@ func (d *coreDriver) oneTrace(id int) error {
 	ev := map[string]interface{}{"ev": "create", "cfg": cfg, "post": empty, "B": m.B, "scale": m.Scale, "trace": id}
 	logDisk(ev)
 	d.emit(ev)
+	if d.pending != nil {
+		d.emit(d.pending)
+		d.pending = nil
+	}
 
 	real := func(t int64) wt.Timestamp { return wt.Timestamp(m.B + t) }
 	val := func() []int64 {
@@ -224,6 +259,9 @@ func (d *coreDriver) oneTrace(id int) error {
 			return now - ret + int64(rnd.Intn(3)) - 1 // retention-1, retention, retention+1
 		case r == 1:
 			return now - int64(rnd.Intn(2))
+		case r == 2 && rnd.Intn(3) == 0:
+			// dated ahead of the clock: the batch API accepts it; it may share a ring slot with a live interval
+			return now + 1 + rnd.Int63n(ret)
 		default:
 			return now - rnd.Int63n(ret)
 		}
@@ -312,6 +350,9 @@ func (d *coreDriver) oneTrace(id int) error {
 			switch rnd.Intn(8) {
 			case 0:
 				f, u = 0, now
+				if m.B > 2147000000 {
+					f = now - ret - 2 // real from=0 maps to model time -B, which must fit TLC's integers
+				}
 			case 1:
 				f = now - rnd.Int63n(ret+3)
 				u = f
